@@ -23,6 +23,7 @@ func checkC12(r *Report, p *Program) {
 	r12_5(r, p)
 	// a rejected hook answer leaves nothing behind (ETag cache) that would keep failing after the fault is gone
 	hookCallOrder(r, p, "R12.6")
+	rmwResultSet(r, p, "R12.7")
 }
 
 func allowedFor(s engine.Sink, under map[*ssa.Function]bool, releasers map[*ssa.Function]bool) []string {
@@ -45,10 +46,12 @@ var r12Exceptions = map[string]string{
 	"controller/common/customize.Manager.findRelatedParents→controller/common/customize.Manager.getCustomizeHookResponse": "event-handler context, not a sync: a parent whose customize hook fails is skipped; its own resync retries",
 }
 
-func r12_1(r *Report, p *Program) {
-	const rule = "R12.1"
+func r12_1(r *Report, p *Program) { errorRule(r, p, "R12.1", 30, nil) }
+
+// errorRule is R12.1, optionally restricted to the functions a property is anchored in.
+func errorRule(r *Report, p *Program, rule string, floor int, only func(f *ssa.Function) bool) {
 	r.Rule(rule, "no API/hook error is dropped except across the documented benign predicate")
-	r.Floor(rule, 30)
+	r.Floor(rule, floor)
 	_, under := childSinks(p)
 	releasers := map[*ssa.Function]bool{}
 	_, rels, _ := claimCallbacks(p)
@@ -62,6 +65,9 @@ func r12_1(r *Report, p *Program) {
 		}
 		in := s.Instr.(ssa.Instruction)
 		seen[in] = true
+		if only != nil && !only(s.Fn) {
+			continue
+		}
 		ok, why := errorDiscipline(p, s.Fn, s.Instr, allowedFor(s, under, releasers), []string{".syncError"})
 		r.Check(rule, s.Construct()+"[error]", p.InstrPos(in), ok, "error handled; tolerated: "+strings.Join(allowedFor(s, under, releasers), ","), why)
 	}
@@ -79,6 +85,9 @@ func r12_1(r *Report, p *Program) {
 	reach := p.CG().CanReach(p, func(f *ssa.Function) bool { return sinkFns[f] || hookFns[f] })
 	ord := map[string]int{}
 	for _, f := range p.Scanned {
+		if only != nil && !only(f) {
+			continue
+		}
 		for _, b := range f.Blocks {
 			for _, in := range b.Instrs {
 				ci, ok := in.(ssa.CallInstruction)
@@ -273,6 +282,81 @@ func r12_3(r *Report, p *Program) {
 	}
 }
 
+// r12_4b: the 429 keeps its identity on the way up. composite sync recognises it
+// with errors.As, which follows Unwrap() error chains (fmt.Errorf %w) but not
+// k8s' utilerrors.Aggregate (no As, no Unwrap() []error): a hook error that is put
+// into an aggregate anywhere between Hook.Call and sync turns "retry after N
+// seconds" into an ordinary failure with back-off.
+func r12_4b(r *Report, p *Program, rule string) {
+	sy := p.Func("controller/composite.parentController.sync")
+	if sy == nil {
+		return
+	}
+	hookFns := map[*ssa.Function]bool{}
+	for _, f := range p.Scanned {
+		if len(callsTo(f, false, "hooks.Hook.Call", "hooks.WebhookExecutor.Call")) > 0 {
+			hookFns[f] = true
+		}
+	}
+	down := p.CG().ReachSet(sy)
+	up := p.CG().CanReach(p, func(f *ssa.Function) bool { return hookFns[f] })
+	n := 0
+	var fs []*ssa.Function
+	for f := range down {
+		if up[f] && engine.ErrorResultIndex(f) >= 0 && strings.HasPrefix(FK(f), engine.ModPrefix) {
+			fs = append(fs, f)
+		}
+	}
+	sort.Slice(fs, func(i, j int) bool { return FK(fs[i]) < FK(fs[j]) })
+	carriesHookErr := func(v ssa.Value) bool {
+		return engine.BackSlice(v, func(x ssa.Value) bool {
+			switch y := x.(type) {
+			case *ssa.Call:
+				for _, g := range p.CalleesOf(y) {
+					if up[g] && down[g] {
+						return true
+					}
+				}
+				k := engine.CallKey(y.Common())
+				return strings.HasSuffix(k, "hooks.Hook.Call") || strings.HasSuffix(k, "hooks.WebhookExecutor.Call")
+			case *ssa.FieldAddr:
+				return fieldNameOf(deref(y.X.Type()), y.Field) == "syncError"
+			}
+			return false
+		}, func(k string) bool { return strings.HasPrefix(k, "fmt.") })
+	}
+	for _, f := range fs {
+		ei := engine.ErrorResultIndex(f)
+		ok, why := true, ""
+		for _, b := range f.Blocks {
+			for _, in := range b.Instrs {
+				rt, isR := in.(*ssa.Return)
+				if !isR {
+					continue
+				}
+				engine.BackSlice(engine.RetVal(rt, ei), func(x ssa.Value) bool {
+					c, isC := x.(*ssa.Call)
+					if !isC || !strings.HasSuffix(engine.CallKey(c.Common()), "util/errors.NewAggregate") {
+						return false
+					}
+					if len(c.Common().Args) == 1 && carriesHookErr(c.Common().Args[0]) {
+						ok, why = false, "the error returned at "+p.InstrPos(rt)+" wraps utilerrors.NewAggregate(…) of hook errors: errors.As in composite sync cannot see a *TooManyRequestError inside an Aggregate, so a 429 is handled as a plain failure (back-off, no Retry-After re-queue)"
+						return true
+					}
+					return false
+				}, func(k string) bool {
+					return strings.HasPrefix(k, "fmt.") || strings.HasSuffix(k, "util/errors.NewAggregate")
+				})
+			}
+		}
+		n++
+		r.Check(rule, FK(f)+"[429-identity]", p.Pos(f.Pos()), ok, "hook errors travel up by identity or %w only", why)
+	}
+	if n < 3 {
+		r.Fail(rule, "429 chain", "-", "anchor-lost", sf("only %d functions between composite sync and the hook call", n))
+	}
+}
+
 func methodOf(k string) string {
 	if i := strings.LastIndex(k, "."); i >= 0 {
 		return k[i+1:]
@@ -335,6 +419,7 @@ func r12_4(r *Report, p *Program) {
 		}
 		r.Check(rule, FK(root)+"[429]", p.Pos(root.Pos()), ok, "429 ⇒ *TooManyRequestError, body untouched", why)
 	}
+	r12_4b(r, p, rule)
 	if sy := fn(r, p, rule, "controller/composite.parentController.sync"); sy != nil {
 		as := callsTo(sy, false, "errors.As")
 		ok, why := len(as) == 1, "composite sync does not look for TooManyRequestError with errors.As"
